@@ -211,8 +211,8 @@ def ensure(prop, registry, RuleSpec):
     return
   rels = generic.anchors(prop)
 
-  def fn(R, repo, _rels=rels):
-    run(R, repo, _rels)
+  def fn(R, repo, _prop=prop):
+    run(R, repo, generic.rule_files(_prop))
   specs.append(RuleSpec(rid, 'K4', len(rels), 'expressions matched with the reference tree: argument order, boolean flags, forwarded keywords, relations, constant indices, operand order', fn))
 
 
@@ -222,9 +222,23 @@ def ensure(prop, registry, RuleSpec):
 import hashlib
 
 
-def _skel(n, leaves):
+import re as _re
+_IDENT_RE = _re.compile(r'^[A-Za-z_][A-Za-z0-9_]{0,30}$')
+_COPY_CALLS = ('dict', 'list', 'tuple', 'set', 'copy.copy', 'copy.deepcopy', 'OrderedDict')
+
+
+def _skel(n, leaves, strip=None):
   """Shape of an expression / statement with its leaves (names, dotted attribute chains, constants) replaced by `_`; the leaf
-  texts are appended to `leaves` in source order.  Nothing is copied or modified."""
+  texts are appended to `leaves` in source order.  Nothing is copied or modified.  With `strip` (a one-element counter list)
+  defensive copies are looked through: dict(E) / list(E) / E.copy() / copy.copy(E) read as E."""
+  if strip is not None and isinstance(n, ast.Call):
+    nm = astu.call_name(n) or ''
+    if nm in _COPY_CALLS and len(n.args) == 1 and not n.keywords and not isinstance(n.args[0], (ast.Starred, ast.GeneratorExp, ast.ListComp)):
+      strip[0] += 1
+      return _skel(n.args[0], leaves, strip)
+    if isinstance(n.func, ast.Attribute) and n.func.attr == 'copy' and not n.args and not n.keywords and nm != 'copy.copy':
+      strip[0] += 1
+      return _skel(n.func.value, leaves, strip)
   if isinstance(n, ast.Name):
     leaves.append(n.id)
     return '_'
@@ -235,7 +249,8 @@ def _skel(n, leaves):
       return '_'
   if isinstance(n, ast.Constant):
     if isinstance(n.value, str):
-      leaves.append('"str"')
+      # collection / stream / field names are behaviour, messages are not
+      leaves.append("'%s'" % n.value if _IDENT_RE.match(n.value) else '"str"')
     else:
       leaves.append(repr(n.value))
     return 'c'
@@ -244,18 +259,18 @@ def _skel(n, leaves):
     return 'c'
   if isinstance(n, ast.Lambda):
     leaves.append('<lambda %d>' % len(astu.params(n)))
-    return 'lambda(%s)' % _skel(n.body, leaves)
+    return 'lambda(%s)' % _skel(n.body, leaves, strip)
   if isinstance(n, ast.keyword):
-    return '%s=%s' % (n.arg, _skel(n.value, leaves))
+    return '%s=%s' % (n.arg, _skel(n.value, leaves, strip))
   if isinstance(n, ast.AST):
     parts = []
     for name, val in ast.iter_fields(n):
       if name in ('ctx', 'type_comment', 'annotation', 'lineno', 'col_offset', 'end_lineno', 'end_col_offset', 'returns'):
         continue
       if isinstance(val, list):
-        parts.append('[%s]' % ','.join(_skel(x, leaves) for x in val))
+        parts.append('[%s]' % ','.join(_skel(x, leaves, strip) for x in val))
       elif isinstance(val, ast.AST):
-        parts.append(_skel(val, leaves))
+        parts.append(_skel(val, leaves, strip))
       elif val is not None and name in ('op', 'attr', 'arg', 'is_async'):
         parts.append(str(val))
     return '%s(%s)' % (type(n).__name__, ';'.join(parts))
@@ -359,6 +374,8 @@ def compare_statements(R, f, ref, now):
         if new in rv and old in nv:
           R.fail(key_of(f, 'value used at `%s`' % ' '.join(x for x in rl[:6])), (f, line),
                  'line %d uses `%s` where the reference tree uses `%s` in an otherwise identical statement (both names exist in %s on both trees, so this is not a rename): a different value flows here' % (line, new, old, f.qual))
+    elif old.startswith("'") and new.startswith("'"):
+      R.fail(key_of(f, 'name at `%s`' % ' '.join(x for x in rl[:6])), (f, line), 'line %d uses the name %s where the reference tree uses %s in an otherwise identical statement: another collection / stream / field / key is addressed' % (line, new, old))
     elif {old, new} == {'True', 'False'}:
       R.fail(key_of(f, 'constant at `%s`' % ' '.join(x for x in rl[:6])), (f, line), 'line %d has `%s` where the reference tree has `%s` in an otherwise identical statement' % (line, new, old))
   return n
